@@ -182,6 +182,10 @@ func C02real(r *ev.Report) {
 func init() {
 	Parts["C02real"] = Part{"C02", C02real}
 	Replayers["C02"] = func(c Case) (bool, string) {
+		if c["op"] == "persist" {
+			return Replayers["C10"](c)
+		}
+
 		key, detail := c02Case(c["op"], repFromCase("a", c), repFromCase("b", c))
 		return key == "", key + " " + detail
 	}
